@@ -587,6 +587,13 @@ def _gen_seq(rng, api: str) -> dict:
             datagrams.append(bytes(b)); valid.append(None); kinds.append("flipped")
         else:
             datagrams.append(rng.randbytes(rng.randint(0, 12))); valid.append(None); kinds.append("random")
+    if spec["k"] == "json" and rng.random() < 0.25:
+        # structurally extreme documents inside one datagram: nesting beyond the recursion limit, integer literal beyond the
+        # int/str conversion limit -> exactly one parse error each, the neighbours unaffected
+        for _ in range(rng.randint(1, 2)):
+            d = rng.choice([b"[" * 3000 + b"]" * 3000, b'{"a":' * 2000 + b"1" + b"}" * 2000, b"9" * 5000, b"[" + b"9" * 4400 + b"]"])
+            i = rng.randint(0, len(datagrams))
+            datagrams.insert(i, d); valid.insert(i, None); kinds.insert(i, "extreme")
     if api in ("udp", "audp"):
         # an empty UDP datagram is legal but indistinguishable from "nothing" for some stacks: keep them non-empty
         keep = [i for i, d in enumerate(datagrams) if d]
